@@ -1,0 +1,43 @@
+//go:build verif
+
+// Contracts for package name, checked by /verif/engine (gvc).  This file
+// contains comments only; it is compiled only with the "verif" build tag.
+package name
+
+// tget: the string stored for a name ID - the named field for the predefined
+// IDs of the OpenType "name" table (0-14, 16-25), the Extra map for all others
+// (ID 15 is reserved and has no field).
+//@ opaque spec tget(t *Table, id int) string = ite(id == 0, t.Copyright, ite(id == 1, t.Family, ite(id == 2, t.Subfamily, ite(id == 3, t.Identifier, ite(id == 4, t.FullName, ite(id == 5, t.Version, ite(id == 6, t.PostScriptName, ite(id == 7, t.Trademark, ite(id == 8, t.Manufacturer, ite(id == 9, t.Designer, ite(id == 10, t.Description, ite(id == 11, t.VendorURL, ite(id == 12, t.DesignerURL, ite(id == 13, t.License, ite(id == 14, t.LicenseURL, ite(id == 16, t.TypographicFamily, ite(id == 17, t.TypographicSubfamily, ite(id == 18, t.MacFullName, ite(id == 19, t.SampleText, ite(id == 20, t.CIDFontName, ite(id == 21, t.WWSFamily, ite(id == 22, t.WWSSubfamily, ite(id == 23, t.LightBackgroundPalette, ite(id == 24, t.DarkBackgroundPalette, ite(id == 25, t.VariationsPostScriptName, ite(isnil(t.Extra), "", t.Extra[id]))))))))))))))))))))))))))
+
+//@ func (t *Table) get(nameID ID) (val string)   props: C14 C16
+//@   requires t != nil
+//@   ensures val == tget(t, nameID)
+//@   modifies nothing
+
+// set stores exactly one name: reading it back gives the value, every other
+// name ID is unchanged.
+//@ func (t *Table) set(nameID ID, val string)   props: C14
+//@   requires t != nil
+//@   ensures tget(t, nameID) == val
+//@   ensures forall id uint16 :: id != nameID ==> tget(t, id) == old(tget(t, id))
+//@   modifies t.*, t.Extra[*]
+
+// keys lists exactly the name IDs with a non-empty string, each once, in
+// increasing order.
+//@ func (t *Table) keys() (res []ID)   props: C14
+//@   requires t != nil
+//@   ensures forall k int :: 0 <= k && k < len(res) ==> tget(t, res[k]) != ""
+//@   ensures forall id uint16 :: tget(t, id) != "" ==> exists k int :: 0 <= k && k < len(res) && res[k] == id
+//@   ensures forall a int :: forall b int :: 0 <= a && a < b && b < len(res) ==> res[a] < res[b]
+//@   modifies nothing
+//@   loop 0
+//@     invariant 0 <= nameID && nameID <= 26 && (isnil(res) || fresh(res)) && len(res) <= nameID
+//@     invariant forall k int :: 0 <= k && k < len(res) ==> res[k] < nameID && tget(t, res[k]) != ""
+//@     invariant forall id uint16 :: id < nameID && tget(t, id) != "" ==> exists k int :: 0 <= k && k < len(res) && res[k] == id
+//@     invariant forall a int :: forall b int :: 0 <= a && a < b && b < len(res) ==> res[a] < res[b]
+//@     decreases 26 - nameID
+//@   loop 1
+//@     invariant (isnil(res) || fresh(res)) && t.Extra != nil
+//@     invariant forall k int :: 0 <= k && k < len(res) ==> tget(t, res[k]) != "" && (res[k] <= 25 || seen(t.Extra, res[k]))
+//@     invariant forall id uint16 :: (id <= 25 || seen(t.Extra, id)) && tget(t, id) != "" ==> exists k int :: 0 <= k && k < len(res) && res[k] == id
+//@     invariant forall a int :: forall b int :: 0 <= a && a < b && b < len(res) ==> res[a] != res[b]
